@@ -5,7 +5,7 @@ patch="$(readlink -f "$1")"; id="$2"; tier="${3:-quick}"
 cd /verif
 if ! git -C /repo diff --quiet; then echo "/repo is dirty" >&2; exit 9; fi
 git -C /repo apply "$patch" || { echo "patch does not apply" >&2; exit 9; }
-./run "$id" "$tier" 2>&1 | grep -v '^  ' | tail -${TAIL:-8}
+timeout ${MUT_TIMEOUT:-1500} ./run "$id" "$tier" 2>&1 | grep -v '^  ' | tail -${TAIL:-8}
 rc=${PIPESTATUS[0]}
 git -C /repo checkout -- . ; git -C /repo clean -fdq
 git -C /verif checkout -- evidence 2>/dev/null
